@@ -47,7 +47,7 @@ strengthened check (column *history*; entries reading "would have been missed" w
 trigger, before the trial, because the generator provably lacked that input).  Every miss but one was a workload gap — an
 input class, order or history the generator did not produce; the exception (C04d) was an oracle weakness: finite-difference
 errors were scaled by the analytic outputs only, so a derivative that was wrongly zero where the value is zero was dropped as
-unresolved.  No miss was a tolerance, and every strengthened check stayed silent on the unchanged tree over VERIF_SEED 0-4.
+unresolved.  No miss was a tolerance, and every strengthened check stayed silent on the unchanged tree in the quick tier over VERIF_SEED 0-4 (rounds a-f) or 0-3 (rounds g, h); in the thorough tier one bound introduced with a strengthening (C03, fractional-Laplacian orbital path) raised a false alarm and was corrected (section 5, C03).
 Miss rate by round: a 9/20, b 7/20, c 11/20, d 3/20, e 11/20, f 9/20 (7 of the first ten, 2 of the second ten), g 12/20, h 8/20 — round d (same axes as before: options, branches) hit generators
 already widened by the earlier rounds, rounds e – h opened new axes (kind of system, form of the data, user workflows, equivalent entry points, size thresholds, edge parameter values, combinations of parts) and found gaps again: the honest reading
 is that each new axis of variation costs a round, not that the generators are complete.  After strengthening, every kept change is caught by the quick tier of its property's check;
